@@ -142,12 +142,15 @@ def _diff(got, exp, kind, extra=None):
     return d
 
 
+WRAP = [lambda t: t]     # C03 re-runs these forms with mutation-guarded inputs by installing probes.guard here
+
+
 def judge(case, ctx):
     kind = case['kind']
     ctx.op('kind:' + kind)
     out = []
     if 'table' in case:
-        table = copy.deepcopy(case['table'])
+        table = WRAP[0](copy.deepcopy(case['table']))
         hdr = table[0]
         rows = [tuple(r) for r in table[1:]]
         if len(rows) >= 2 and len(hdr) >= 2:
